@@ -351,7 +351,7 @@ def run(chk):
     rng = random.Random(chk.seed)
     thorough = chk.tier == "thorough"
     ops = boundary_ops(thorough)
-    ops += gen_ops(rng, 6000 if not thorough else 60000, 9)
+    ops += gen_ops(rng, 6000 if not thorough else 50000, 9)
     ops += gen_ops(rng, 150 if not thorough else 3000, 16)
     # one comparison per op group, so that a flood of failures of one kind cannot use up the report budget of another
     groups = {}
@@ -363,8 +363,8 @@ def run(chk):
     for g in sorted(groups):
         stats += corr.correspond(chk, AREA, exe, groups[g], case_start=CASE_START, classify=classify, sig_of=sig_of)
     if thorough:
-        for _ in range(3):
-            stats += corr.correspond(chk, AREA, exe, gen_ops(rng, 60000, 10), case_start=CASE_START,
+        for _ in range(2):
+            stats += corr.correspond(chk, AREA, exe, gen_ops(rng, 50000, 10), case_start=CASE_START,
                                      classify=classify, sig_of=sig_of)
     for p in problems:
         found = stats.get("spec", 0) + stats.get("fault", 0)
@@ -387,7 +387,11 @@ def run(chk):
                     "libc inet_pton/inet_ntop (IPv6 text is libc on both sides: correspondence-only, reference via Python socket)",
                     "libstdc++ std::hash<uint32_t> (identity) and std::hash<std::string>"]
     chk.extra["modelled_not_proved"] = ["std::hash<IPv6Address> value (modelled bit-exactly, only congruence is a theorem)",
-                                        "IPv6 text <-> bytes (libc; echoed reference)"]
+                                        "IPv6 text <-> bytes (libc on both sides; the reference answer of libc is echoed by the model)",
+                                        "inet_pton(AF_INET) reference model V4.pton4Loop = Spec.parse4 (strict dotted quad): "
+                                        "not proved equal, both compared with libc on every run; the round trip "
+                                        "parse(fmt a) = a is a theorem under that model",
+                                        "big-endian #if branch of endianness.h"]
     corr.finalize_cov(chk)
 
 
